@@ -35,41 +35,74 @@ impl Drop for CancelGuard {
     }
 }
 
+async fn run_step(script: &Script, log: &Log, observer: &Option<ractor::ActorCell>, name: &'static str, myself: &ActorRef<u64>) -> Result<(), ActorProcessingErr> {
+    log.lock().unwrap().push(format!("start:{}", name));
+    let step = script.lock().unwrap().get_mut(name).and_then(|q| q.pop_front()).unwrap_or(Step { outcome: "ok".into(), yields: 0, actions: vec![] });
+    let mut guard = CancelGuard { name, log: log.clone(), done: false };
+    for a in step.actions.iter() {
+        match a.as_str() {
+            "kill" => myself.kill(),
+            "stop" => myself.stop(None),
+            "stopreason" => myself.stop(Some("the-exit-reason".to_string())),
+            "drain" => {
+                let _ = myself.drain();
+            }
+            "msg" => {
+                let _ = myself.cast(1u64);
+            }
+            "linkobs" => {
+                if let Some(o) = observer {
+                    myself.link(o.clone());
+                }
+            }
+            "supevt" => ractor::verif_hooks::lifecycle::verif_send_supervisor_evt(&myself.get_cell()),
+            _ => {}
+        }
+    }
+    for _ in 0..step.yields {
+        tokio::task::yield_now().await;
+    }
+    guard.done = true;
+    log.lock().unwrap().push(format!("end:{}:{}", name, step.outcome));
+    match step.outcome.as_str() {
+        "ok" => Ok(()),
+        "err" => Err(From::from("scripted error")),
+        _ => panic!("scripted panic"),
+    }
+}
+
 impl Scripted {
     async fn run(&self, name: &'static str, myself: &ActorRef<u64>) -> Result<(), ActorProcessingErr> {
-        self.log.lock().unwrap().push(format!("start:{}", name));
-        let step = self.script.lock().unwrap().get_mut(name).and_then(|q| q.pop_front()).unwrap_or(Step { outcome: "ok".into(), yields: 0, actions: vec![] });
-        let mut guard = CancelGuard { name, log: self.log.clone(), done: false };
-        for a in step.actions.iter() {
-            match a.as_str() {
-                "kill" => myself.kill(),
-                "stop" => myself.stop(None),
-                "stopreason" => myself.stop(Some("the-exit-reason".to_string())),
-                "drain" => {
-                    let _ = myself.drain();
-                }
-                "msg" => {
-                    let _ = myself.cast(1u64);
-                }
-                "linkobs" => {
-                    if let Some(o) = &self.observer {
-                        myself.link(o.clone());
-                    }
-                }
-                "supevt" => ractor::verif_hooks::lifecycle::verif_send_supervisor_evt(&myself.get_cell()),
-                _ => {}
-            }
-        }
-        for _ in 0..step.yields {
-            tokio::task::yield_now().await;
-        }
-        guard.done = true;
-        self.log.lock().unwrap().push(format!("end:{}:{}", name, step.outcome));
-        match step.outcome.as_str() {
-            "ok" => Ok(()),
-            "err" => Err(From::from("scripted error")),
-            _ => panic!("scripted panic"),
-        }
+        run_step(&self.script, &self.log, &self.observer, name, myself).await
+    }
+}
+
+/// the same scripted actor on the thread-local runtime (handler built by Default on the spawner thread: script and log travel in the state)
+#[derive(Default)]
+struct ScriptedTl;
+struct TlState {
+    script: Script,
+    log: Log,
+    observer: Option<ractor::ActorCell>,
+}
+impl ractor::thread_local::ThreadLocalActor for ScriptedTl {
+    type Msg = u64;
+    type State = TlState;
+    type Arguments = TlState;
+    async fn pre_start(&self, myself: ActorRef<u64>, a: TlState) -> Result<TlState, ActorProcessingErr> {
+        run_step(&a.script, &a.log, &a.observer, "pre_start", &myself).await.map(|_| a)
+    }
+    async fn post_start(&self, myself: ActorRef<u64>, s: &mut TlState) -> Result<(), ActorProcessingErr> {
+        run_step(&s.script, &s.log, &s.observer, "post_start", &myself).await
+    }
+    async fn post_stop(&self, myself: ActorRef<u64>, s: &mut TlState) -> Result<(), ActorProcessingErr> {
+        run_step(&s.script, &s.log, &s.observer, "post_stop", &myself).await
+    }
+    async fn handle(&self, myself: ActorRef<u64>, _m: u64, s: &mut TlState) -> Result<(), ActorProcessingErr> {
+        run_step(&s.script, &s.log, &s.observer, "handle", &myself).await
+    }
+    async fn handle_supervisor_evt(&self, myself: ActorRef<u64>, _m: SupervisionEvent, s: &mut TlState) -> Result<(), ActorProcessingErr> {
+        run_step(&s.script, &s.log, &s.observer, "handle_supervisor_evt", &myself).await
     }
 }
 
@@ -152,7 +185,20 @@ pub fn run(a: &Args) {
             None
         };
         let actor = Scripted { script: script.clone(), log: log.clone(), observer: observer.clone() };
-        let res = if with_sup { Actor::spawn_linked(name.clone(), actor, (), sup.get_cell()).await } else { Actor::spawn(name.clone(), actor, ()).await };
+        let res = if a.opt_u128("tl").unwrap_or(0) == 1 {
+            use ractor::thread_local::{ThreadLocalActor, ThreadLocalActorSpawner};
+            let spawner = ThreadLocalActorSpawner::new();
+            let args = TlState { script: script.clone(), log: log.clone(), observer: observer.clone() };
+            if with_sup {
+                ScriptedTl::spawn_linked(name.clone(), args, sup.get_cell(), spawner).await
+            } else {
+                ScriptedTl::spawn(name.clone(), args, spawner).await
+            }
+        } else if with_sup {
+            Actor::spawn_linked(name.clone(), actor, (), sup.get_cell()).await
+        } else {
+            Actor::spawn(name.clone(), actor, ()).await
+        };
         match res {
             Err(e) => {
                 let v = match e {
